@@ -20,7 +20,7 @@ use identity_storage::KeyType;
 use identity_stronghold::StrongholdStorage;
 use iota_sdk::client::secret::stronghold::StrongholdSecretManager;
 use iota_sdk::client::Password;
-use seq::{Backend, Gk, IModel, IOp, KModel, KOp};
+use seq::{Backend, Gk, IModel, IOp, KModel, KOp, Mode};
 use serde::{Deserialize, Serialize};
 use std::future::Future;
 use std::path::PathBuf;
@@ -154,6 +154,13 @@ impl Backend for Sh {
     // without a password-clearing timeout), so a plain executor on the calling thread drives it.
     vx::gate::block_on(f)
   }
+  // one object, both traits: the `side` run mode applies
+  fn keyids_of_keys(h: &Snapshot) -> Option<&StrongholdStorage> {
+    Some(h.storage())
+  }
+  fn keys_of_keyids(h: &Snapshot) -> Option<&StrongholdStorage> {
+    Some(h.storage())
+  }
 }
 
 // ================================================================================================ cases
@@ -161,8 +168,17 @@ impl Backend for Sh {
 /// Same serde form as the sequential variants of c15's `Case`.
 #[derive(Serialize, Deserialize, Debug, Clone)]
 enum Case {
-  Jwk { cap: u8, hist: Vec<KOp> },
-  KeyId { hist: Vec<IOp> },
+  Jwk {
+    cap: u8,
+    hist: Vec<KOp>,
+    #[serde(default, skip_serializing_if = "Mode::is_plain")]
+    mode: Mode,
+  },
+  KeyId {
+    hist: Vec<IOp>,
+    #[serde(default, skip_serializing_if = "Mode::is_plain")]
+    mode: Mode,
+  },
 }
 
 fn prepare_dir(ctx: &Ctx) {
@@ -196,53 +212,80 @@ fn eval(ctx: &Ctx, case: &Case) {
   ctx.eval1();
   prepare_dir(ctx);
   match case {
-    Case::Jwk { cap, hist } => seq::replay_jwk::<Sh>(*cap, hist).drain_into(ctx, "jwk-replay"),
-    Case::KeyId { hist } => seq::replay_keyid::<Sh>(hist).drain_into(ctx, "keyid-replay"),
+    Case::Jwk { cap, hist, mode } => seq::replay_jwk::<Sh>(*cap, hist, *mode).drain_into(ctx, "jwk-replay"),
+    Case::KeyId { hist, mode } => seq::replay_keyid::<Sh>(hist, *mode).drain_into(ctx, "keyid-replay"),
   }
   cleanup();
 }
 
 fn generate(ctx: &Ctx) {
-  ctx.rule("C15 part (c): the sequential-history explorer of C15 (a1)/(a2) (shared model file c15/seq.rs) on identity_stronghold::StrongholdStorage. (a1) stateright BFS over key-store op histories (state = history; the store is rebuilt by replay on a FRESH snapshot file for every expansion; fingerprint = model slots + complete observation vector: exists of every issued id and a never-issued id, sign by every id verified under every issued public JWK, + the depth). (a2) the same for the KeyIdStorage side over digests x key ids, to closure. After every judged operation the storage is dropped and rebuilt from its snapshot file and observed again. distinct_nontrivial = unique states of the runs");
+  ctx.rule("C15 part (c): the sequential-history explorer of C15 (a1)/(a2) (shared model file c15/seq.rs) on identity_stronghold::StrongholdStorage. (a1) stateright BFS over key-store op histories (state = history; the store is rebuilt by replay on a FRESH snapshot file for every expansion; fingerprint = model slots + complete observation vector: exists of every issued id and a never-issued id, sign by every id verified under every issued public JWK, + the depth in the depth-bounded runs). (a2) the same for the KeyIdStorage side over digests x key ids, to closure. After every judged operation the storage is dropped and rebuilt from its snapshot file with the same password and observed again (must be unchanged). Further runs at smaller bounds: the storage is dropped and rebuilt after EVERY operation of the history; the store already holds two key-id mappings (resp. a generated and an inserted key) whose observation must never change. distinct_nontrivial = unique states of the runs");
   ctx.assume("the snapshot encryption work factor is set to 0 (iota_stronghold::engine::snapshot::try_set_encrypt_work_factor), as in identity_stronghold's own tests; the password is fixed");
   ctx.assume("two histories are merged iff model state and the complete observation vector of the rebuilt real store coincide; a difference invisible to every observation at every later step is not excluded (bounded-observation caveat)");
   ctx.assume("EdDSAJwsVerifier and the harness's fixed-seed Ed25519 keys (iota-crypto) are the trusted verification base; the RFC 7638 thumbprint is recomputed by the harness with sha2");
   ctx.assume("Stronghold under thread schedules is not explored (DESIGN: excluded); the bbs-plus feature (BLS12381G2 through JwkStorageBbsPlusExt) is off");
   prepare_dir(ctx);
 
-  // ---------------------------------------------------------------- (a1)
-  // stateright's depth target counts the initial state as depth 1: target d+1 = every history of <= d operations
-  let ops = ctx.by_tier(2usize, 4usize);
-  let cap = 3u8;
+  let plain = Mode::default();
+  let reopen_each = Mode { reopen_each: true, side: false };
+  let side = Mode { reopen_each: false, side: true };
+  let mode_name = |m: Mode| match (m.reopen_each, m.side) {
+    (false, false) => "reopen after the last operation",
+    (true, false) => "reopen after EVERY operation",
+    (false, true) => "store already holds entries of the other kind; reopen after the last operation",
+    (true, true) => "store already holds entries of the other kind; reopen after EVERY operation",
+  };
   let diverged = Arc::new(AtomicBool::new(false));
-  let t0 = ctx.elapsed_s();
-  let st = vx::sr::run(
-    ctx,
-    &format!("(c/a1) StrongholdStorage as JwkStorage: histories of <= {ops} operations, <= {cap} issued ids (depth in fingerprint), reopen after every step"),
-    Some(ops + 1),
-    |col| KModel::<Sh>::new(cap, true, col, diverged.clone()),
-  );
-  for i in 0..st.unique {
-    ctx.distinct(&(1u8, i));
-  }
-  let t1 = ctx.elapsed_s();
-  ctx.require(!diverged.load(Ordering::Relaxed), "(c/a1) replaying a recorded history produced a different number of issued key ids");
-  ctx.bound("jwk_store_issued_ids_cap", cap);
-  ctx.bound("jwk_store_history_length", ops);
+  let mut part_no = 0u8;
+  let mut walls = serde_json::Map::new();
 
-  // ---------------------------------------------------------------- (a2)
-  let (nd, nk) = (2u8, 2u8);
-  let st2 = vx::sr::run(
-    ctx,
-    &format!("(c/a2) StrongholdStorage as KeyIdStorage: histories over {nd} digests x {nk} key ids, to closure, reopen after every step"),
-    None,
-    |col| IModel::<Sh>::new(nd, nk, col),
-  );
-  for i in 0..st2.unique {
-    ctx.distinct(&(2u8, i));
+  // ---------------------------------------------------------------- (a1) key store
+  // stateright's depth target counts the initial state as depth 1: target d+1 = every history of <= d operations
+  let mut jwk_run = |ctx: &Ctx, ops: Option<usize>, cap: u8, mode: Mode| {
+    part_no += 1;
+    let bound = match ops {
+      Some(n) => format!("histories of <= {n} operations (depth in fingerprint)"),
+      None => "to closure".to_string(),
+    };
+    let name = format!("(c/a1.{part_no}) StrongholdStorage as JwkStorage: {bound}, <= {cap} issued ids; {}", mode_name(mode));
+    let t0 = ctx.elapsed_s();
+    let st = vx::sr::run(ctx, &name, ops.map(|n| n + 1), |col| KModel::<Sh>::new(cap, ops.is_some(), col, diverged.clone()).with_mode(mode));
+    for i in 0..st.unique {
+      ctx.distinct(&(part_no, i));
+    }
+    walls.insert(name, json!(((ctx.elapsed_s() - t0) * 10.0).round() / 10.0));
+  };
+  let ops = ctx.by_tier(2usize, 4usize);
+  jwk_run(ctx, Some(ops), 3, plain);
+  if ctx.thorough() {
+    jwk_run(ctx, None, 2, plain);
   }
-  let t2 = ctx.elapsed_s();
-  ctx.bound("key_id_store_universe", json!({"digests": nd, "key_ids": nk}));
+  let ops_modes = ctx.by_tier(2usize, 3usize);
+  jwk_run(ctx, Some(ops_modes), 3, reopen_each);
+  jwk_run(ctx, Some(ops_modes), 3, side);
+  ctx.require(!diverged.load(Ordering::Relaxed), "(c/a1) replaying a recorded history produced a different number of issued key ids");
+  ctx.bound("jwk_store_history_length", json!({"plain": ops, "reopen_after_every_operation": ops_modes, "with_key_id_mappings_present": ops_modes, "issued_ids_cap": 3}));
+  if ctx.thorough() {
+    ctx.bound("jwk_store_closure_run_issued_ids_cap", 2);
+  }
+
+  // ---------------------------------------------------------------- (a2) key-id store
+  let mut part_no = 100u8;
+  let mut keyid_run = |ctx: &Ctx, nd: u8, nk: u8, mode: Mode| {
+    part_no += 1;
+    let name = format!("(c/a2.{}) StrongholdStorage as KeyIdStorage: histories over {nd} digests x {nk} key ids, to closure; {}", part_no - 100, mode_name(mode));
+    let t0 = ctx.elapsed_s();
+    let st = vx::sr::run(ctx, &name, None, |col| IModel::<Sh>::new(nd, nk, col).with_mode(mode));
+    for i in 0..st.unique {
+      ctx.distinct(&(part_no, i));
+    }
+    walls.insert(name, json!(((ctx.elapsed_s() - t0) * 10.0).round() / 10.0));
+  };
+  let (nd, nk) = ctx.by_tier((2u8, 2u8), (3u8, 3u8));
+  keyid_run(ctx, nd, nk, plain);
+  keyid_run(ctx, 2, 2, reopen_each);
+  keyid_run(ctx, 2, 2, side);
+  ctx.bound("key_id_store_universe", json!({"plain": {"digests": nd, "key_ids": nk}, "other_modes": {"digests": 2, "key_ids": 2}}));
 
   // ---------------------------------------------------------------- files
   let left = cleanup();
@@ -251,8 +294,7 @@ fn generate(ctx: &Ctx) {
   ctx.part(
     "(c) snapshot files and wall time",
     json!({"fresh_snapshot_files(one per execution)": created, "removed": removed, "reopens_from_snapshot": REOPENS.load(Ordering::Relaxed),
-      "directory": snapshot_dir().to_string_lossy(), "wall_s_a1(both runs: all cores, then 1 thread)": ((t1 - t0) * 10.0).round() / 10.0,
-      "wall_s_a2(both runs)": ((t2 - t1) * 10.0).round() / 10.0}),
+      "directory": snapshot_dir().to_string_lossy(), "wall_s_per_part(both runs: all cores, then 1 thread)": walls}),
   );
   // keep the guard import honest: a last smoke test that a dropped handle really removed its file
   let probe = guard(|| {
